@@ -20,7 +20,22 @@ def canon_value(v):
         return ("nd", str(a.dtype), a.shape, hashlib.sha1(a.tobytes()).hexdigest())
     if isinstance(v, (list, tuple)):
         return ("seq", tuple(canon_value(x) for x in v))
-    return ("py", type(v).__name__, repr(v))
+    if isinstance(v, dict):
+        return ("map", tuple((str(k), canon_value(x)) for k, x in sorted(v.items(), key=lambda kv: str(kv[0]))))
+    if isinstance(v, (bool, int, float, complex, str, bytes, type(None), np.generic)):
+        return ("py", type(v).__name__, repr(v))
+    # any other object (a cached interpolator, say): its type and public content, never its address - a repr that
+    # contains id() would keep equal states from merging
+    if _depth[0] < 3 and hasattr(v, "__dict__"):
+        _depth[0] += 1
+        try:
+            return ("obj", type(v).__name__, tuple((k, canon_value(x)) for k, x in sorted(vars(v).items())))
+        finally:
+            _depth[0] -= 1
+    return ("obj", type(v).__name__)
+
+
+_depth = [0]
 
 
 def canon(obj, skip=("fluid",)):
